@@ -63,10 +63,6 @@ func runC02(c *engine.Ctx) {
 		return
 	}
 	c.Analysed(engine.FuncName(loadLocal), engine.FuncName(loadRemote))
-	isLocal := func(in ssa.Instruction) bool {
-		cc, ok := in.(*ssa.Call)
-		return ok && cc.Call.StaticCallee() == loadLocal
-	}
 	// the dispatcher: calls both
 	for _, f := range c.P.FuncsIn(rlPkg) {
 		var rcall *ssa.Call
@@ -89,54 +85,110 @@ func runC02(c *engine.Ctx) {
 				}
 			}
 		}
-		// (i) after the remote load: every return not through loadLocal is under data != nil or err != nil
-		okNil := true
-		whyNil := ""
-		data := extractOf(rcall, 0)
-		errv := extractOf(rcall, 1)
-		for _, r := range engine.Returns(f) {
-			if !reachableFromAvoiding(rcall, r, isLocal, nil) {
+		// finite-domain evaluation of the dispatcher: the outcome of the wait for remote data, of the "still under a
+		// branch the responder skipped" test and of the remote load are fixed in turn to every combination; whenever
+		// the combination means "nothing usable came from the responder" every path must have called the local loader
+		var waitCall, pathCall *ssa.Call
+		var localCalls []*ssa.Call
+		for _, ci := range engine.Calls(f) {
+			call := ci.Value()
+			if call == nil || ci.Static == nil {
 				continue
 			}
-			conds := engine.InstrConds(r)
-			if (data != nil && engine.KnownNonNil(conds, data)) || (errv != nil && engine.KnownNonNil(conds, errv)) {
+			if ci.Static == loadLocal {
+				localCalls = append(localCalls, call)
 				continue
 			}
-			okNil = false
-			whyNil = "after a remote load that yielded neither data nor an error the function can return at " + c.P.Pos(r.Pos()) + " without trying the local store"
-		}
-		c.Decide(r2, key+"|remote-nil", rcall.Pos(), okNil && sameLink, "a remote load yielding (nil, nil) falls through to the local loader for the same link", whyNil)
-		// (ii) unfollowed path: the branch that skips the remote load reaches the local loader
-		okPath := false
-		for _, cd := range engine.InstrConds(rcall) {
-			call, ok := cd.V.(*ssa.Call)
-			if !ok || call.Call.StaticCallee() == nil || cd.Pol {
-				continue
+			res := ci.Static.Signature.Results()
+			if res.Len() == 2 && res.At(0).Type().String() == "bool" && res.At(1).Type().String() == "error" && engine.FuncPkgPath(ci.Static) == engine.FuncPkgPath(f) {
+				waitCall = call
 			}
-			// the other edge
-			other := cd.If.Block().Succs[0]
-			if r, _ := engine.MustReachFromBlock(other, isLocal, nil); r {
-				okPath = true
+			if res.Len() == 1 && res.At(0).Type().String() == "bool" && engine.FuncPkgPath(ci.Static) == engine.FuncPkgPath(f) && ci.Static != loadRemote {
+				pathCall = call
 			}
 		}
-		c.Decide(r2, key+"|unfollowed-path", rcall.Pos(), okPath, "below a link the remote did not follow, the local loader is used", "when the path tracker says the remote did not follow this branch, the local store is not consulted")
-		// (iii) offline
-		okOff := false
-		for _, b := range f.Blocks {
-			ifi, ok := b.Instrs[len(b.Instrs)-1].(*ssa.If)
-			if !ok {
-				continue
+		if waitCall == nil || pathCall == nil || len(localCalls) == 0 {
+			c.Undecided(r2, key+"|dispatch", f.Pos(), "cannot identify the wait-for-remote step, the unfollowed-branch test and the local load in the dispatcher")
+			continue
+		}
+		isExtractOf := func(v ssa.Value, call *ssa.Call, idx int) bool {
+			e, ok := v.(*ssa.Extract)
+			return ok && e.Tuple == ssa.Value(call) && e.Index == idx
+		}
+		nilOrPtr := func(isNil bool, tok ssa.Value) engine.EVal {
+			if isNil {
+				return engine.EVal{K: engine.ENil}
 			}
-			if ex, ok := ifi.Cond.(*ssa.Extract); ok && ex.Index == 0 {
-				if wc, ok := ex.Tuple.(*ssa.Call); ok && wc.Call.StaticCallee() != nil && wc.Call.StaticCallee().Signature.Results().Len() == 2 {
-					// hasRemoteData false -> loadLocal
-					if r, _ := engine.MustReachFromBlock(b.Succs[1], isLocal, nil); r {
-						okOff = true
+			return engine.EVal{K: engine.EPtr, Tok: tok}
+		}
+		bad := map[string]string{}
+		nEval := 0
+		for _, hasRemote := range []bool{true, false} {
+			for _, unfollowed := range []bool{true, false} {
+				for _, dataNil := range []bool{true, false} {
+					for _, errNil := range []bool{true, false} {
+						needLocal, label := false, ""
+						switch {
+						case !hasRemote:
+							needLocal, label = true, "offline"
+						case unfollowed:
+							needLocal, label = true, "unfollowed-path"
+						case dataNil && errNil:
+							needLocal, label = true, "remote-nil"
+						}
+						if !needLocal {
+							continue
+						}
+						nEval++
+						missed := false
+						ev := &engine.Evaluator{MaxVisits: 2}
+						ev.Input = func(v ssa.Value) (engine.EVal, bool) {
+							switch {
+							case isExtractOf(v, waitCall, 0):
+								return engine.EVal{K: engine.EBool, B: hasRemote}, true
+							case isExtractOf(v, waitCall, 1):
+								return engine.EVal{K: engine.ENil}, true
+							case v == ssa.Value(pathCall):
+								return engine.EVal{K: engine.EBool, B: unfollowed}, true
+							case isExtractOf(v, rcall, 0):
+								return nilOrPtr(dataNil, rcall), true
+							case isExtractOf(v, rcall, 1):
+								return nilOrPtr(errNil, rcall), true
+							}
+							return engine.EVal{}, false
+						}
+						ev.Call = func(call *ssa.Call, get func(ssa.Value) engine.EVal) (engine.EVal, bool) {
+							for _, lc := range localCalls {
+								if call == lc {
+									return engine.EVal{K: engine.EPtr, Tok: lc}, true // executed marker
+								}
+							}
+							return engine.EVal{}, false
+						}
+						ev.Observe = func(in ssa.Instruction, get func(ssa.Value) engine.EVal) {
+							if _, ok := in.(*ssa.Return); ok {
+								done := false
+								for _, lc := range localCalls {
+									if get(lc).K == engine.EPtr {
+										done = true
+									}
+								}
+								if !done {
+									missed = true
+								}
+							}
+						}
+						ev.Run(f)
+						if ev.Aborted || missed {
+							bad[label] = fmt.Sprintf("with usable-remote=%v, under-a-skipped-branch=%v, remote data nil=%v, remote error nil=%v a path returns without consulting the local store", hasRemote, unfollowed, dataNil, errNil)
+						}
 					}
 				}
 			}
 		}
-		c.Decide(r2, key+"|offline", f.Pos(), okOff, "without usable remote data the local loader is used", "when no remote data is usable the local store is not consulted")
+		c.Decide(r2, key+"|remote-nil", rcall.Pos(), bad["remote-nil"] == "" && sameLink, "a remote load yielding (nil, nil) falls through to the local loader for the same link", "after a remote load that yielded neither data nor an error the local store is not tried: "+bad["remote-nil"])
+		c.Decide(r2, key+"|unfollowed-path", rcall.Pos(), bad["unfollowed-path"] == "", "below a link the remote did not follow, the local loader is used", "when the path tracker says the remote did not follow this branch, the local store is not consulted: "+bad["unfollowed-path"])
+		c.Decide(r2, key+"|offline", f.Pos(), bad["offline"] == "", "without usable remote data the local loader is used", "when no remote data is usable the local store is not consulted: "+bad["offline"])
 	}
 
 	// R3 (a) loadLocal failures
